@@ -73,6 +73,8 @@ func (f *in) Listen(onMsg func(msg []byte, milliseconds int32), conf drivers.Lis
 	//fmt.Printf("listeining from in port of %s\n", f.Driver.name)
 
 	f.last = time.Now()
+	// a new listener starts listening again after a previous stop
+	f.stopListening = false
 
 	stopFn = func() {
 		f.stopListening = true
